@@ -48,4 +48,8 @@ def run(prog: Program, col: Collector, tier: str, refs: Optional[Refs] = None, c
     algebra.r_contraction_rules_cover_reduced_vars(prog, col, refs, cat, "R08.16")
     algebra.r_contraction_result_reduces(prog, col, refs, cat, "R08.17")
     algebra.r_nested_fusion_same_red_op(prog, col, refs, cat, "R08.18")
+    algebra.r_receiver_narrowed_reduce(prog, col, refs, cat, "R08.19")
+    algebra.r_split_reduced_vars_accounted(prog, col, refs, cat, "R08.20")
+    from . import algebra as _algebra2
+    _algebra2.r_guarded_reduce_has_alternative(prog, col, refs, cat, "R08.21")
     return col
